@@ -316,6 +316,52 @@ pub fn sequence(t: i32, r: &mut Rng, c: &Cfg, min_n: usize, max_n: usize, varian
         let m = if c.nan_zm || !m.is_nan() { m } else { NO_DATA };
         return (0..n).map(|_| crate::shapes::with_uniform_measure(&shape(t, r, c), m)).collect();
     }
+    if variant % 13 == 7 {
+        // consecutive identical records (and one value repeated three times)
+        let mut v: Vec<Shape> = vec![];
+        while v.len() < n {
+            let s = shape(t, r, c);
+            let reps = 1 + r.below(3) as usize;
+            for _ in 0..reps.min(n - v.len()) {
+                v.push(crate::shapes::clone_shape(&s));
+            }
+        }
+        return v;
+    }
+    if variant % 17 == 9 && !is_point(t) {
+        // data-dependent coincidences: as many parts as points (one-vertex rings / patches,
+        // two-vertex polyline parts), x == y everywhere, or x equal to the running vertex index
+        let style = (variant / 17) % 3;
+        return (0..n)
+            .map(|k| {
+                let parts = r.usize_in(1, c.max_parts.max(1));
+                let len = if is_polyline(t) { 2 } else if is_multipoint(t) { parts } else { 1 };
+                let base = shape_exact(t, r, c, if is_multipoint(t) { 1 } else { parts }, len);
+                if style == 0 {
+                    return base;
+                }
+                use crate::dump::Dump;
+                let d = base.d();
+                let mut idx = k as f64;
+                let input: Vec<(i32, Vec<[u64; 4]>)> = d
+                    .parts
+                    .iter()
+                    .enumerate()
+                    .map(|(i, p)| {
+                        let pts = p
+                            .iter()
+                            .map(|v| {
+                                idx += 1.0;
+                                if style == 1 { [v[0], v[0], v[2], v[3]] } else { [idx.to_bits(), v[1], v[2], v[3]] }
+                            })
+                            .collect();
+                        (d.kinds.get(i).copied().unwrap_or(0), pts)
+                    })
+                    .collect();
+                crate::shapes::build_from_parts(t, &input, false)
+            })
+            .collect();
+    }
     if variant % 7 == 3 {
         let parts = r.usize_in(1, c.max_parts.max(1));
         let len = r.usize_in(1, c.max_len.max(1));
